@@ -154,10 +154,13 @@ def run_action(tr, inp):
         if kind == "UserAddNode":
             return U.UserAddNode(tr, a["n"], attrs, force=a["force"])
         return A.AddNode(tr, a["n"], attrs)
-    if kind == "UserUpdateNodeAttrs":
-        return U.UserUpdateNodeAttrs(tr, a["n"], {a["key"]: a["val"]})
-    if kind == "UpdateNodeAttrs":
-        return A.UpdateNodeAttrs(tr, a["n"], {a["key"]: a["val"]})
+    if kind in ("UserUpdateNodeAttrs", "UpdateNodeAttrs"):
+        attrs = {a["key"]: a["val"]}
+        if a.get("key2") is not None:
+            attrs[a["key2"]] = a["val2"]
+        if kind == "UserUpdateNodeAttrs":
+            return U.UserUpdateNodeAttrs(tr, a["n"], attrs)
+        return A.UpdateNodeAttrs(tr, a["n"], attrs)
     if kind == "UpdateTrackIDs":
         return A.UpdateTrackIDs(tr, a["n"], a["tid"], a["lid"])
     raise AssertionError(kind)
